@@ -504,7 +504,14 @@ func (rw *rewriter) instrumentJob(fd *ast.FuncDecl) {
 	if posts == 0 {
 		fail("job method %s: no completion post (mgr.jobs <- ...) found outside closures", name)
 	}
-	begin := &ast.AssignStmt{Lhs: []ast.Expr{ast.NewIdent("__job")}, Tok: token.DEFINE, Rhs: []ast.Expr{rw.rt("JobBegin", strLit(name))}}
+	args := []ast.Expr{strLit(name)}
+	if fd.Type.Params != nil && len(fd.Type.Params.List) > 0 {
+		p0 := fd.Type.Params.List[0]
+		if id, ok := p0.Type.(*ast.Ident); ok && id.Name == "string" && len(p0.Names) > 0 && p0.Names[0].Name != "_" {
+			args = append(args, ast.NewIdent(p0.Names[0].Name))
+		}
+	}
+	begin := &ast.AssignStmt{Lhs: []ast.Expr{ast.NewIdent("__job")}, Tok: token.DEFINE, Rhs: []ast.Expr{rw.rt("JobBegin", args...)}}
 	fd.Body.List = append([]ast.Stmt{begin}, fd.Body.List...)
 	rw.st.JobBegin++
 	rw.st.JobPost += posts
